@@ -22,6 +22,7 @@ writers of cobertura.rs / output.rs / html.rs route every name through these rou
 the fixed text around the names is what the templates say.
 -/
 import GrcovModel.Lemmas.Escape
+import GrcovModel.Props.C18CobBytes
 namespace Grcov.Props.C18
 open Grcov.Escape
 
